@@ -1,4 +1,4 @@
-import Mathlib
+
 /-!
 A concrete model of the background theory T-Bytes (govc/arith.go, govc/smt.go): byte strings are lists of
 `Fin 256`; the SMT functions are interpreted below. `Statements.lean` (GENERATED from the SMT-LIB text of
@@ -30,7 +30,7 @@ section
 variable {Ref : Type} (elem : Ref → Int → Ref)
 /-- content of the slice of array `r` at offset `o`, length `n`, in the heap component `E` -/
 def seq8 (E : Ref → Int) (r : Ref) (o n : Int) : Bytes :=
-  (List.range n.toNat).map (fun k => toByte (E (elem r (o + (k : Int)))))
+  (List.range n.toNat).map (fun (k : Nat) => toByte (E (elem r (o + (k : Int)))))
 end
 
 end TBytes
